@@ -266,6 +266,37 @@ func CmdCheck(args []string) int {
 		return fail("no obligations were generated (vacuous check)")
 	}
 	sort.Strings(under)
+	// thorough tier: every recorded finding of this property is replayed on the
+	// real code through its scenario adapter - a repaired defect must not come
+	// back, an open one is expected to reproduce (dynamic, not proof)
+	var scenarioRuns []map[string]string
+	if *tier == "thorough" {
+		entries, vd := loadAdapters(*verifDir)
+		seenTest := map[string]bool{}
+		for _, fd := range findings {
+			if fd.Property != *prop {
+				continue
+			}
+			for _, en := range entries {
+				if !strings.Contains(fd.Obligation, en.Match) || seenTest[en.File+"/"+en.Test] {
+					continue
+				}
+				seenTest[en.File+"/"+en.Test] = true
+				rep, reproduced := e.runAdapter(vd, en)
+				outcome := "not reproduced"
+				if reproduced {
+					outcome = "reproduced"
+				}
+				scenarioRuns = append(scenarioRuns, map[string]string{"adapter": en.File + "/" + en.Test, "finding_status": fd.Status, "outcome": outcome})
+				if reproduced && fd.Status == "fixed" {
+					violations++
+					rp := writeReplay(*verifDir, *prop, "scenario/"+en.Test, "a repaired defect is back (recorded as fixed in known_findings.jsonl):\n"+fd.What+"\n\n"+rep)
+					fmt.Printf("VIOLATION property=%s replay=%s\n", *prop, rp)
+				}
+				break
+			}
+		}
+	}
 	cov := map[string]interface{}{
 		"obligations":              nObl,
 		"discharged":               nDis,
@@ -280,6 +311,7 @@ func CmdCheck(args []string) int {
 		"not_proved_at_enrolment":  unprovedHit,
 		"unsupported":              unsupported,
 		"known_findings_hit":       knownHit,
+		"scenario_replays":         scenarioRuns,
 		"abstracted":               pick(notes, "abstracted:"),
 		"assumed_contracts":        pick(notes, "assumed contract"),
 		"havocked_calls":           pick(notes, "havoc:"),
